@@ -14,9 +14,10 @@ def run(ctx):
     # L2: every transition of the lock-step graph replayed on the real ProofGraph
     M = "ProofGraph.tla"
     if q:
-        c.graph_leg(ctx, M, "proof_graph", "Gen_ProofGraph_d5.cfg", {"NH": 3}, 300, 9, 3, "Sim_ProofGraph.cfg", 1500, 10)
+        c.graph_leg(ctx, M, "proof_graph", "Gen_ProofGraph_d5.cfg", {"NH": 3}, 300, 9, 3, "Sim_ProofGraph.cfg", 1500, 10,
+                    variants=[{"keys": "same"}])      # every premise key is the same pattern text (different facts matching one pattern)
     else:
-        c.graph_leg(ctx, M, "proof_graph", "Gen_ProofGraph_d5.cfg", {"NH": 3}, 3000, 9, 4, "Sim_ProofGraph.cfg", 30000, 10)
+        c.graph_leg(ctx, M, "proof_graph", "Gen_ProofGraph_d5.cfg", {"NH": 3}, 3000, 9, 4, "Sim_ProofGraph.cfg", 30000, 10, variants=[{"keys": "same"}])
         c.graph_leg(ctx, M, "proof_graph", "Gen_ProofGraph_4.cfg", {"NH": 4}, 3000, 9, 3, "Sim_ProofGraph_4.cfg", 30000, 10, timeout=3000)
     ctx.cov["rule"] = ("behaviours = shortest path + one edge for every (state,label) of the TLC-dumped lock-step graph "
                        "(ideal x as-built ProofGraph), all op sequences to the all-histories depth, seeded random walks, "
